@@ -768,6 +768,14 @@ func scaleUpFast(value, scale float64, Q uint64) uint64 {
 	return uint64(scale*value+0.5) % Q
 }
 
+// OUTLEVEL1 control: computed at the level of the key, the receiver keeps its own
+func (ev *fixEvaluator) ProductAtKeyLevel(op0, op1, opOut *rlwe.Ciphertext) {
+	levelQ := op1.Level()
+	r := ev.r.AtLevel(levelQ)
+	r.MulCoeffsMontgomery(op0.Value[0], op1.Value[0], opOut.Value[0])
+	r.MulCoeffsMontgomery(op0.Value[1], op1.Value[0], opOut.Value[1])
+}
+
 // ERRSTORE control: the failed product stays in the cache
 type powCache struct{ vals map[int]*big.Int }
 
